@@ -179,6 +179,32 @@ def main():
                               "load_rets": [b[0] for b in bs[:4]], "test_rets": [b[0] for b in bs[4:]], "stream_entry_points_agree": streams_same, "caller_file_ok": fileok,
                               "broken": "monitor: the same bytes give different results through different entry points (beyond the documented container / companion differences)"},
                              key="entry:%s" % lab)
+            # ---- (c) the same four loads into a context that already holds another module (no release in between): each must give
+            #          what the fresh context gave - formats whose loader looks at the size of its data (Mod's Grave .WOW, song-only M.K.)
+            #          are the ones that notice when an entry point records that size before the implicit release
+            if not replay:
+                pre = os.path.join(V.REPO, "test-dev", "data", "test.it")
+                rfiles = [os.path.join(V.REPO, "test-dev", "data", "m", x) for x in ("acidfunk.wow", "crystals.mod")] + [f for f, lab in jobs if lab == "corpus"][:12 if tier == "quick" else 200]
+                rfiles = [f for f in rfiles if os.path.exists(f)]
+                rr = V.run([drv, "load", pre], inp="".join("%s %s\n" % (e, p) for p in rfiles for e in ("LP", "LM", "LF", "LC", "QP", "QM", "QF", "QC")), env=env, timeout=3000)
+                rb, cur = [], None
+                for l in rr.stdout.split("\n"):
+                    if l.startswith("RET "): cur = [l]; rb.append(cur)
+                    elif cur is not None and l: cur.append(l)
+                nre = 0
+                for k, p in enumerate(rfiles):
+                    bs = rb[8 * k: 8 * k + 8]
+                    if len(bs) < 8: break
+                    for i, nm in enumerate(("path", "memory", "FILE", "callbacks")):
+                        ck.count(); nre += 1
+                        if bs[i] != bs[4 + i]:
+                            d = next((a + " / " + b for a, b in zip(bs[4 + i], bs[i]) if a != b), "length")
+                            ndiff += 1
+                            ck.violation({"engine": "entry-reload", "file": os.path.relpath(p, V.REPO), "entry_point": nm, "what": "loaded over a loaded module: %s" % d[:200],
+                                          "broken": "monitor: a load through the %s entry point into a context that already holds a module differs from the same load into a fresh context" % nm}, key="entry-reload:" + nm)
+                ck.engine_stat("entry_reload", loads_compared=nre)
+                if rr.returncode != 0:
+                    ck.violation({"engine": "entry-reload", "broken": "sanitizer report / crash when loading over a loaded module", "stderr": rr.stderr[-1500:]}, key="entry-reload-crash")
             ck.engine_stat("entry", files=len(jobs), identical_through_all_entry_points=same, documented_container_or_companion_difference=container, violations=ndiff)
             ck.sample({"engine": "entry", "file": os.path.basename(jobs[0][0]), "rets": [b[0] for b in blocks[:8]]})
     finally:
